@@ -184,7 +184,16 @@ def precise_diff(
             "Comparison between naive and aware datetimes is not supported"
         )
 
-    if d1 > d2:
+    if tzinfo1 is not None and tzinfo1 is tzinfo2:
+        # datetimes sharing a tzinfo are compared by their wall clock,
+        # which is not the order of the instants inside a repeated hour
+        swap = d1.replace(tzinfo=None) - cast(
+            datetime.timedelta, d1.utcoffset()
+        ) > d2.replace(tzinfo=None) - cast(datetime.timedelta, d2.utcoffset())
+    else:
+        swap = d1 > d2
+
+    if swap:
         d1, d2 = d2, d1
         sign = -1
 
